@@ -37,6 +37,9 @@ def raw_array(spec):
         a = (0.5 + g.random(shape)).astype(dt)
     elif kind == "perm":
         a = g.permutation(shape[0]).astype(np.int64)
+    elif kind == "perm_neg":  # a permutation whose larger entries are written NumPy-style from the end (-1 is the last row)
+        a = g.permutation(shape[0]).astype(np.int64)
+        a[a >= (shape[0] + 1) // 2] -= shape[0]
     elif kind == "int":
         a = g.integers(-3, 4, size=shape).astype(dt)
     else:
@@ -178,7 +181,7 @@ class Builder:
             c = self.array({"shape": [max(n - 1, 0)], "dtype": odt, "seed": s + 2})
             return ops.Tridiagonal(a, b, c)
         if k == "perm":
-            p = self.array({"shape": [r["n"]], "seed": r.get("seed", 0), "kind": "perm"})
+            p = self.array({"shape": [r["n"]], "seed": r.get("seed", 0), "kind": "perm_neg" if r.get("neg") else "perm"})
             return ops.Permutation(p, DT[r.get("dtype", "f8")])
         if k == "householder":
             v = self.array({"shape": [r["n"], 1], "dtype": r.get("dtype", "f8"), "seed": r.get("seed", 0)})
